@@ -196,7 +196,14 @@ def mutate(rng, tree, label_space=50):
             one = {"p": pl, "i": x, "a": [[1, term(rng)]]}
             two = {"p": pl, "i": x, "a": [[1, term(rng)], [2, term(rng)]]}
             first, second = (one, two) if kind == "single_vs_multi" else (two, one)
-            e[k] = {"c": None, "o": [[f2b(1.0), first], [f2b(2.0), second]]}
+            c = rng.random()
+            if c < 0.5:
+                e[k] = {"c": None, "o": [[f2b(1.0), first], [f2b(2.0), second]]}
+            else:
+                # one of them is an ancestor of the other (directly, or with a node of the other player in between)
+                below = second if c < 0.8 else {"p": 3 - pl, "i": L() + 7000, "a": [[1, second], [2, term(rng)]]}
+                first["a"][0][1] = below
+                e[k] = first
         elif kind == "dup_action":
             a = L()
             e[k] = {"p": pl, "i": L() + 6000, "a": [[a, term(rng)], [L(), term(rng)], [a, term(rng)]][:rng.choice([2, 3])]
